@@ -180,6 +180,7 @@ func gen(r *vh.Rand, tier string, n int, emit func(vh.Case)) {
 	for i := 0; i < n; i++ {
 		c := vh.Case{ID: strconv.Itoa(i)}
 		if r.Chance(1, 12) { // backoff arithmetic of the real nextBackoff, from arbitrary and extreme starting values
+			c.Ops = append(c.Ops, "consts")
 			for k, m := 0, r.Range(5, 40); k < m; k++ {
 				var d int64
 				switch r.Intn(6) {
